@@ -463,6 +463,19 @@ func pipelineFacts() {
 		strings.HasPrefix(ntb, "{ q.commitOffset.Store(commitOffset) for _, r := range q.waitingRequests { if r.minOffset > commitOffset { return }")
 	add("trackerCommitsAtRequiredAcks", "Bool", boolLean(okAck), "server/quorum_ack_tracker.go: ack, NewQuorumAckTracker, notifyCommitOffsetAdvanced",
 		"an entry is committed when exactly RF/2 distinct cursors have acknowledged it; the commit offset is stored before the waiting requests are completed")
+	// the completions (on the leader: the application of the committed entry to the database and the answer
+	// to the client) run while the tracker's mutex is held, one commit after the other: this is what keeps
+	// the application in offset order when several cursors acknowledge concurrently
+	ackPub := funcDecl(q, "cursorAcker", "Ack")
+	apb := ""
+	if ackPub != nil {
+		apb = squash(src(ackPub.Body))
+	}
+	add("trackerCompletesWaitersUnderLock", "Bool", boolLean(
+		apb == "{ c.quorumTracker.Lock() defer c.quorumTracker.Unlock() c.ack(offset) }" &&
+			strings.Contains(ntb, "q.waitingRequests = q.waitingRequests[1:] r.callback.OnComplete(nil) }")),
+		"server/quorum_ack_tracker.go: (*cursorAcker).Ack, notifyCommitOffsetAdvanced",
+		"Ack holds the tracker mutex for the whole call (deferred unlock) and notifyCommitOffsetAdvanced invokes the callbacks itself")
 	wl := parse("server/wal/wal_impl.go")
 	cn := funcDecl(wl, "wal", "checkNextOffset")
 	cb := ""
